@@ -1,6 +1,7 @@
 package main
 
 import (
+	"go/types"
 	"go/token"
 	"sort"
 	"strings"
@@ -26,6 +27,7 @@ func init() {
 			{"C20-R2", "exemptions precede capture in ISTIO_OUTPUT", c20r2},
 			{"C20-R3", "loopback flag is monotone", c20r3},
 			{"C20-R4", "a negated include filter is one rule over the whole list", c20r4},
+			{"C20-R5", "the idempotency check probes every generated rule", c20r5},
 		},
 	})
 }
@@ -502,4 +504,65 @@ func c20r4(c *Ctx) {
 	}
 	c.Check("negated include filters found", token.NoPos, n >= 1, "no CombineMatchers call with a negating matcher found")
 	c.Floor(3)
+}
+
+// C20-R5: the state check probes every rule. On a re-run the configurator decides "nothing to do" from the check rules
+// (one `iptables -C` per generated rule) plus a per-chain rule count; if a generated rule has no probe, residues of a
+// DIFFERENT configuration with the same rule counts pass for the current one and Run() leaves the stale rules in force.
+// In CheckRules - or the same-package helper it hands the rules to - every pass of the loop over the rules appends a
+// rule to the output (no skip). UndoRules legitimately skips (flushed chains); sharing its loop is what the rule is for.
+func c20r5(c *Ctx) {
+	p := c.P
+	pkgB := "tools/istio-iptables/pkg/builder"
+	fn := p.Func(pkgB, "", "CheckRules")
+	type target struct {
+		f     *ssa.Function
+		rules ssa.Value
+	}
+	ts := []target{{fn, fn.Params[0]}}
+	eachInstr(fn, func(ins ssa.Instruction) {
+		call, ok := ins.(*ssa.Call)
+		if !ok {
+			return
+		}
+		sc := call.Call.StaticCallee()
+		if sc == nil || sc.Pkg != fn.Pkg || len(sc.Blocks) == 0 {
+			return
+		}
+		for k, a := range call.Call.Args {
+			if a == ssa.Value(fn.Params[0]) && k < len(sc.Params) {
+				ts = append(ts, target{sc, sc.Params[k]})
+			}
+		}
+	})
+	n := 0
+	for _, t := range ts {
+		for _, l := range rangeLoops(t.f) {
+			if l.Over == nil || !(l.Over == t.rules || sameValue(l.Over, t.rules)) {
+				continue
+			}
+			n++
+			isApp := func(ins ssa.Instruction) bool {
+				call, ok := ins.(*ssa.Call)
+				if !ok || !isAppendCall(ins) {
+					return false
+				}
+				sl, ok := call.Type().Underlying().(*types.Slice)
+				if !ok {
+					return false
+				}
+				nn, ok := sl.Elem().(*types.Named)
+				return ok && nn.Obj().Name() == "Rule"
+			}
+			bad, found := pathAvoidingE(l.Body, nil, isApp, nil, nil, l.Header)
+			pos := t.f.Pos()
+			if bad != nil {
+				pos = bad.Pos()
+			}
+			c.Check("every generated rule gets a check rule: "+t.f.Name(), pos, !found,
+				"a pass of the loop over the generated rules can finish without emitting a check rule: that rule is then never probed with `iptables -C`, only the per-chain rule count guards it, so residues of a different configuration with the same counts (another exclude CIDR, another port) are taken for the current state and the re-run leaves the stale rules in force")
+		}
+	}
+	c.Check("CheckRules walks the generated rules", fn.Pos(), n >= 1, "no loop over the rules found in CheckRules or the helper it delegates to")
+	c.Floor(2)
 }
